@@ -26,13 +26,18 @@ type config struct {
 	B        int  `json:"b"`        // bufferSizeMaximum
 	LoaderUs int  `json:"loaderUs"` // loader interval in microseconds
 	Plain    bool `json:"plain"`    // plain ChannelQueue instead of BufferedChannelQueue
+	// NodePool = nodeHookPoolSize (recycled-node cache trimmed by the free-node goroutine), FreeUs = its
+	// interval (0 = same as the loader), ViaSetter = bound and pool size configured through the setters
+	NodePool  int  `json:"nodePool"`
+	FreeUs    int  `json:"freeUs"`
+	ViaSetter bool `json:"viaSetter"`
 }
 
 func (c config) String() string {
 	if c.Plain {
 		return fmt.Sprintf("ChannelQueue(cap=%d)", c.C)
 	}
-	return fmt.Sprintf("Buffered(C=%d,B=%d,loader=%dus)", c.C, c.B, c.LoaderUs)
+	return fmt.Sprintf("Buffered(C=%d,B=%d,loader=%dus,nodePool=%d,free=%dus,setter=%v)", c.C, c.B, c.LoaderUs, c.NodePool, c.FreeUs, c.ViaSetter)
 }
 
 func genConfig(t *rapid.T, allowPlain bool) config {
@@ -41,6 +46,9 @@ func genConfig(t *rapid.T, allowPlain bool) config {
 		B:        rapid.SampledFrom([]int{0, 1, 2, 5, 50}).Draw(t, "B"),
 		LoaderUs: rapid.SampledFrom([]int{10, 200, 2000}).Draw(t, "loaderUs"),
 	}
+	c.NodePool = rapid.SampledFrom([]int{0, 1, 3, 100}).Draw(t, "nodePool")
+	c.FreeUs = rapid.SampledFrom([]int{0, 10, 100}).Draw(t, "freeUs")
+	c.ViaSetter = rapid.Bool().Draw(t, "viaSetter")
 	if allowPlain && rapid.IntRange(0, 5).Draw(t, "plain") == 0 {
 		c.Plain = true
 		c.B = 0
@@ -70,9 +78,22 @@ func newQueue(cfg config, plan vlib.Plan) *queue {
 	fpgo.SetVerifHook(q.sched.Hook)
 	// the constructor starts the loader at once: build with TrackAll for the
 	// construction window, then restrict to this queue
-	q.b = fpgo.NewBufferedChannelQueue[int](cfg.C, cfg.B, 100).
-		SetLoadFromPoolDuration(time.Duration(cfg.LoaderUs) * time.Microsecond).
-		SetFreeNodeHookPoolIntervalDuration(time.Duration(cfg.LoaderUs) * time.Microsecond)
+	freeUs := cfg.FreeUs
+	if freeUs == 0 {
+		freeUs = cfg.LoaderUs
+	}
+	if cfg.ViaSetter {
+		q.b = fpgo.NewBufferedChannelQueue[int](cfg.C, cfg.B+7, 55).
+			SetBufferSizeMaximum(cfg.B).
+			SetNodeHookPoolSize(cfg.NodePool)
+	} else {
+		q.b = fpgo.NewBufferedChannelQueue[int](cfg.C, cfg.B, cfg.NodePool)
+	}
+	q.b.SetLoadFromPoolDuration(time.Duration(cfg.LoaderUs) * time.Microsecond).
+		SetFreeNodeHookPoolIntervalDuration(time.Duration(freeUs) * time.Microsecond)
+	if q.b.GetBufferSizeMaximum() != cfg.B || q.b.GetNodeHookPoolSize() != cfg.NodePool {
+		panic("harness: configuration getters disagree with what was set")
+	}
 	q.sched.Track(q.b)
 	return q
 }
@@ -820,7 +841,7 @@ func TestReplayJSON(t *testing.T) {
 }
 
 func TestSequential(t *testing.T) {
-	vlib.Check(t, "sequential", 600, 3000, func(t *rapid.T) {
+	vlib.Check(t, "sequential", 600, 10000, func(t *rapid.T) {
 		s := genSeq(t)
 		st := vlib.S()
 		st.Eval("sequential")
@@ -836,7 +857,7 @@ func TestSequential(t *testing.T) {
 }
 
 func TestConcurrent(t *testing.T) {
-	vlib.Check(t, "concurrent", 400, 2000, func(t *rapid.T) {
+	vlib.Check(t, "concurrent", 400, 6000, func(t *rapid.T) {
 		c := genConc(t)
 		st := vlib.S()
 		st.Eval("concurrent")
